@@ -13,6 +13,8 @@ S = 16384
 def rq(v):
     """reciprocal in fixed point: round(S / v); 0 if not representable"""
     v = float(v)
+    if v == float("inf"):
+        return 0                 # 1 / (x A^+ x^T) with x in the null space of an unregularised covariance: positive, beyond every bound
     if not np.isfinite(v) or v <= 0:
         return -1
     r = S / v
